@@ -340,3 +340,18 @@ impl<T: FloatT> DefaultKKTSystem<T> {
         self.kktsolver.verif_c08_kkt_state()
     }
 }
+
+// Add-only read access for the external verification harness (/verif, property C11):
+// the private state of the KKT solver behind a live `DefaultSolver`.
+#[cfg(feature = "verif-hooks")]
+#[allow(missing_docs)]
+impl<T> DefaultKKTSystem<T>
+where
+    T: FloatT,
+{
+    pub fn verif_kkt_view(
+        &self,
+    ) -> Option<crate::solver::core::kktsolvers::direct::verif_hooks_kkt::KktView<T>> {
+        self.kktsolver.verif_view()
+    }
+}
